@@ -121,6 +121,8 @@ pub struct Gen {
     updated_tables: BTreeSet<String>,
     /// true while statements of a batch are being generated
     in_batch: bool,
+    /// a VACUUM has run (D29 guard)
+    vacuumed: bool,
     /// (table, rendered key) of rows a failed multi-row insert may have left behind
     poisoned: BTreeSet<(String, String)>,
 }
@@ -154,6 +156,7 @@ impl Gen {
             updated_tables: BTreeSet::new(),
             in_batch: false,
             poisoned: BTreeSet::new(),
+            vacuumed: false,
         }
     }
 
@@ -771,7 +774,12 @@ impl Gen {
                 self.emit(Event::Reopen(c));
                 self.emit(Event::Check);
             } else if take!(self.p.w_vacuum) {
+                // D14: VACUUM removes rows whose delete was rolled back (or is pending: VACUUM aborts it)
+                if self.p.has("vacuum_after_rolled_back_delete") && (!self.delete_rolled_back.is_empty() || !self.sess_deleted.is_empty()) {
+                    continue;
+                }
                 self.emit(Event::Check);
+                self.vacuumed = true;
                 self.emit(Event::Vacuum);
                 self.emit(Event::Check);
             } else if take!(self.p.w_ddl) {
@@ -786,6 +794,9 @@ impl Gen {
                         1 => in_sess = Some(*self.sess.keys().next().unwrap()),
                         _ => continue,
                     }
+                }
+                if self.p.has("ddl_after_vacuum") && self.vacuumed {
+                    continue;
                 }
                 let rel_ok = !self.p.has("more_than_3_relations") || self.relations_made < 3;
                 if rel_ok && (self.tables_made as usize) < self.p.max_tables as usize && (ts.len() < 2 || self.rng.chance(60)) {
